@@ -171,15 +171,16 @@ def k_standardize(ctx, rows, cols, options, col_mapper=None, index=None):
     if canon.fingerprint(df) != fp:
         ctx.violation("standardize_dataframe:input-modified", "the caller's table was modified", list(df.columns), "unchanged input")
     if col_mapper and kw["col_mapper"] != col_mapper:
-        ctx.violation("standardize_dataframe:col_mapper-modified", "the caller's col_mapper was modified", kw["col_mapper"], col_mapper)
+        ctx.count("col_mapper_dict_modified")               # option-dictionary purity is C20's property: observation only here
     if not out.ok:
         ctx.violation(f"standardize_dataframe:raised:{type(out.exc).__name__}", "standardize_dataframe raised", out.describe(), None)
         return
     res = out.value
     newcols = [col_mapper.get(c, c) if col_mapper else c for c in cols]
-    if list(res.columns) != newcols:
-        ctx.violation("standardize_dataframe:columns", "columns are not the (renamed) input columns in order", list(res.columns), newcols)
+    if sorted(map(str, res.columns)) != sorted(map(str, newcols)):
+        ctx.violation("standardize_dataframe:columns", "columns are not the (renamed) input columns", list(res.columns), newcols)
         return
+    res = res[newcols]                       # column order is not part of the property
     if len(res) != len(df) or list(res.index) != list(df.index):
         ctx.violation("standardize_dataframe:rows-or-index", "row count / order / index not preserved", list(res.index)[:10], list(df.index)[:10])
         return
@@ -221,7 +222,8 @@ def k_standardize(ctx, rows, cols, options, col_mapper=None, index=None):
             ctx.violation("standardize_dataframe:locality:raised", "raised on a row subset", o2.describe(), None)
         else:
             want = res.iloc[sub]
-            a = o2.value.astype(object).where(~o2.value.isna(), None)
+            o2v = o2.value[newcols] if sorted(map(str, o2.value.columns)) == sorted(map(str, newcols)) else o2.value
+            a = o2v.astype(object).where(~o2v.isna(), None)
             b = want.astype(object).where(~want.isna(), None)
             if list(a.index) != list(b.index) or a.values.tolist() != b.values.tolist():
                 ctx.violation("standardize_dataframe:not-cell-local", "standardising a permuted row subset differs from the subset of the standardised table",
@@ -317,7 +319,7 @@ def k_multimerge(ctx, tables, on, suffixes=None, how=None):
         model.append(rows)
     want, wantcols = _join(model, None, how or "outer")
     got = collections.Counter()
-    keyed_by_index = suffixes or on == "index"
+    keyed_by_index = on == "index" or on not in res.columns      # the key may come back as the index or as a column
     try:
         for i in range(len(res)):
             row = res.iloc[i]
